@@ -16,7 +16,7 @@ import (
 func init() { families["ids"] = idsFamily }
 
 type idStep struct {
-	Op       string `json:"op"` // "add" (default) | "remove" (the explicit-th accessory of the container) | "removerefused"
+	Op       string `json:"op"` // "add" (default) | "remove" (the explicit-th accessory of the container) | "removerefused" | "latechar"
 	Explicit int    `json:"explicit"`
 	Shape    []int  `json:"shape"`
 }
@@ -50,6 +50,17 @@ func buildWord(steps []idStep, variant int) (c *accessory.Container, accepted []
 			if s.Explicit >= 1 && s.Explicit <= len(accepted) {
 				c.RemoveAccessory(accepted[s.Explicit-1])
 				accepted = append(accepted[:s.Explicit-1:s.Explicit-1], accepted[s.Explicit:]...)
+			}
+			continue
+		case "latechar":
+			// a characteristic is added to the last service of an accessory that is in the container already
+			if s.Explicit >= 1 && s.Explicit <= len(accepted) {
+				a := accepted[s.Explicit-1]
+				ch := characteristic.NewInt(fmt.Sprintf("D%02X", k))
+				ch.Format = characteristic.FormatUInt8
+				ch.Perms = characteristic.PermsAll()
+				ch.SetValue(k)
+				a.Services[len(a.Services)-1].AddCharacteristic(ch.Characteristic)
 			}
 			continue
 		case "removerefused":
